@@ -192,7 +192,7 @@ class PythonTypesBackend(CodeBackend):
             # If the alias is to a composite type, we want to alias the
             # generated class as well.
             self.emit('{} = {}'.format(
-                alias.name,
+                fmt_class(alias.name),
                 class_name_for_data_type(alias.data_type, namespace)))
 
     def _generate_imports_for_referenced_namespaces(self, namespace):
